@@ -232,6 +232,10 @@ def run_block(src: str, bindings: dict, local: bool = False):
     def stub(i):
         def f(*args):
             r = len(log)
+            if r > 3000:
+                # a block that keeps filling the collection it iterates over: same classification as the 2 s alarm, but
+                # before the snapshots of the growing arguments take gigabytes (thorough tier: the process was killed)
+                raise _Timeout()
             log.append((i, [snap(a) for a in args]))
             if i == 0:
                 return r
@@ -710,8 +714,18 @@ WITNESSES = [
     (None, "fixes.implicit_dict_keys_values_items", "d = {1: 2}\nprint([_ for k, _ in d.items()])\n", True),
     (None, "fixes.implicit_dict_keys_values_items", "d = {1: 2, 3: 4}\nfor k in d.keys():\n    d[k] = d[k] * 10\nprint(d)\n", True),
     (None, "fixes.implicit_dict_keys_values_items", "d = {1: 2, 3: 4}\nprint([d[k] for k in d.keys()], {k: v for k, v in d.items()})\n", True),
+    # ed9c7d4 repaired the forms that mention the mapping in the loop (method call, passed to a function); what is left of
+    # F02coll-2 needs escape analysis: the mapping changed through an alias or by a callee that reads the global
+    (None, "fixes.implicit_dict_keys_values_items",
+     "d = {1: 2, 3: 4}\nfor k in d.keys():\n    d.update({k: 0})\n    print(d[k])\n", True),
+    (None, "fixes.implicit_dict_keys_values_items",
+     "def reset(m, k):\n    m[k] = 0\nd = {1: 2, 3: 4}\nfor k in d.keys():\n    reset(d, k)\n    print(d[k])\n", True),
+    (None, "fixes.implicit_dict_keys_values_items",
+     "d = {1: 2, 3: 4}\nprint([(d.update({k: 0}), d[k]) for k in d.keys()])\n", True),
+    (None, "fixes.implicit_dict_keys_values_items",
+     "d = {1: 2, 3: 4}\nfor k1 in d.keys():\n    for k2 in d.keys():\n        print(d[k1], d[k2])\n", True),
     ("F02coll-2", "fixes.implicit_dict_keys_values_items",
-     "d = {1: 2, 3: 4}\nfor k in d.keys():\n    d.update({k: 0})\n    print(d[k])\n", None),
+     "d = {1: 2, 3: 4}\ne = d\nfor k in d.keys():\n    e[k] = 0\n    print(d[k])\n", None),
     (None, "fixes.fix_raise_missing_from",
      "def h(error):\n    try:\n        int('x')\n    except ValueError:\n        raise KeyError(error)\ntry:\n    h('my message')\n"
      "except KeyError as e:\n    print(e)\n", True),
@@ -725,6 +739,33 @@ WITNESSES = [
      "import collections\nd = {}\nfor k, v in [(1, 2), (1, 3), (0, 1)]:\n    if k in d:\n        d[k].add(v)\n    else:\n        d[k] = {v}\n"
      "print(sorted(d.items()), len(d), d == {1: {2, 3}, 0: {1}})\n", True),
     (None, "fixes.breakout_starred_args", "def f(*a):\n    print(a)\nf(*{*[1, 1]})\nf(*[1, 2], *(3,), *{4})\n", True),
+    # ---- round 5: inputs of the repairs that other owners made to the modelled rules (text level; most are outside the
+    # Gallina fragment: rebound builtins, class bodies, keyword calls)
+    # b5959d8: filter is not the builtin
+    (None, "fixes.replace_with_filter",
+     "def filter(f, xs):\n    return []\nfor x in [1, 0, 2]:\n    if x:\n        print(x)\n", True),
+    # 295ec41: compound body statement (was rolled back, now rewritten)
+    (None, "fixes.replace_with_filter",
+     "for x in [1, 0, 2]:\n    if x:\n        for y in range(x):\n            print(x, y)\n            print('-')\n", True),
+    (None, "fixes.replace_with_filter",
+     "for x in [1, 0, 2]:\n    if not bool(x):\n        continue\n    if x > 1:\n        print('big', x)\n    else:\n        print('small', x)\n", True),
+    # 8954d7b: a lambda assigned in a class body is a method
+    (None, "fixes.simplify_redundant_lambda",
+     "def f(*a):\n    return len(a)\nclass A:\n    m = lambda self: f(self)\n    n = lambda *args: f(*args)\nprint(A().m(), A().n())\n", True),
+    # f4e4533: a call passes the parameter by name
+    (None, "fixes.simplify_redundant_lambda",
+     "def f(y):\n    return y + 1\ng = lambda x: f(x)\nprint(g(x=1))\n", True),
+    # 305d7fc: the name collections is taken
+    (None, "fixes.implicit_defaultdict",
+     "collections = None\nd = {}\nfor k, v in [(1, 2), (1, 3)]:\n    if k not in d:\n        d[k] = []\n    d[k].append(v)\nprint(sorted(d.items()))\n", True),
+    # e611558 / 92cbc84: name of the new variable
+    (None, "fixes.implicit_dict_keys_values_items",
+     "d = {1: 2}\nd_k = 'taken'\nfor k in d.keys():\n    print(d[k])\nprint(d_k)\n", True),
+    (None, "fixes.implicit_dict_keys_values_items",
+     "d = {'a': {1: 2}}\nd__a__k = 'taken'\nfor k in d['a'].keys():\n    print(d['a'][k], d__a__k)\n", True),
+    # abbdfdc / 3adf99c
+    (None, "fixes.simplify_assign_immediate_return",
+     "def f():\n    global x\n    x = 5\n    return x\nx = 0\nprint(f(), x)\n", True),
 ]
 
 
